@@ -12,6 +12,7 @@ package ecs
 //@   ensures ok: result1 == nil && len(result0) == 8
 //@   ensures bytes: be32(result0, 0) == uint32(e.id) && be32(result0, 4) == e.gen
 //@   ensures unchanged: *e == old(*e)
+//@   ensures fresh: __fresh(result0)
 
 //@ func (*Entity).UnmarshalBinary
 //@   serves C17
